@@ -262,7 +262,9 @@ def add_targets(E, spec, pid):
     spec.event_contracts[f"{CL}._get_single"] = c_gs
     spec.event_contracts[f"{CL}.upload"] = c_up
     spec.targets += [(f"{CL}._get_single", None), (f"{CL}.upload", None)]
-    tags = {"C03": ("[C03]", "[C03,"), "C11": ("[C11]", "requires/C11", "[C11,"), "C13": ("[C13]", "[C13,", "[INV,C13]"), "C18": ("[C18]",)}.get(pid)
+    # the [C16] clause (one connection, to the host/port parse_url reports = the pin key) is part of C03's claim as well:
+    # a pin checked for another host than the one connected to protects nothing
+    tags = {"C03": ("[C03]", "[C03,", "[C16]"), "C11": ("[C11]", "requires/C11", "[C11,"), "C13": ("[C13]", "[C13,", "[INV,C13]"), "C18": ("[C18]",)}.get(pid)
     if tags:
         prev = getattr(spec, "keep", None)
         sess = (f"{CL}._get_single/", f"{CL}.upload/")
